@@ -602,7 +602,7 @@ FLOAT_RE = re.compile(r'^[ \t\n\r]*([+\-]?([0-9]+(\.[0-9]*)?|\.[0-9]+)([Ee][+\-]
 DECIMAL_RE = re.compile(r'^[ \t\n\r]*[+\-]?([0-9]+(\.[0-9]*)?|\.[0-9]+)[ \t\n\r]*$')
 BASE64_RE = re.compile(r'^([A-Za-z0-9+/]{4})*([A-Za-z0-9+/]{2}[AEIMQUYcgkosw048]=|[A-Za-z0-9+/][AQgw]==)?$')
 HEXBINARY_RE = re.compile(r'^([0-9a-fA-F]{2})*$')
-DURATION_RE = re.compile(r'^(-?)P(\d+Y)?(\d+M)?(\d+D)?(T(\d+H)?(\d+M)?((\d+)(\.\d+)?S)?)?$', re.ASCII)
+DURATION_RE = re.compile(r'^(-?)P(?=\d|T\d)(\d+Y)?(\d+M)?(\d+D)?(T(?=\d)(\d+H)?(\d+M)?((\d+)(\.\d+)?S)?)?$', re.ASCII)
 DATETIME_RE = re.compile(r'^(-?)(\d\d\d\d)-(\d\d)-(\d\d)T(\d\d):(\d\d):(\d\d)(\.\d+)?([+\-](\d\d):(\d\d)|Z)?$',
                          re.ASCII)
 TIME_RE = re.compile(r'^(\d\d):(\d\d):(\d\d)(\.\d+)?([+\-](\d\d):(\d\d)|Z)?$', re.ASCII)
